@@ -7,6 +7,7 @@ mod crash;
 mod f3;
 mod fsm;
 mod img;
+mod inflight;
 mod migr;
 mod mutimg;
 mod partition;
@@ -32,6 +33,15 @@ fn main() {
         "cache" => cachem::run(&opts),
         "conc" => conc::run(&opts),
         "race" => race::run(&opts),
+        "inflight" => inflight::run(&opts),
+        "asanselftest" => {
+            // a deliberate heap out-of-bounds read: visible only to an instrumented build
+            let v = vec![1u8; 64];
+            let p = v.as_ptr();
+            let x = unsafe { std::ptr::read_volatile(p.add(64 + (opts.u64("off", 0) as usize))) };
+            println!("read {x}");
+            0
+        }
         "lag" => crash::run_lag(&opts),
         "racechild" => race::racechild(&opts),
         "seq" => seq::run(&opts),
